@@ -490,3 +490,43 @@ package core
 //@       forall(k, 0, len(result), typeof(result[k]) == rv_src_t(ghost.rcall_out[k]) && ival(result[k]) == rv_src_v(ghost.rcall_out[k]))
 //@   loop 1 invariant 0 <= i && len(in) == n + 1 && forall(k, 0, i, args[k] != nil ==> rv_valid(in[k + 1]) && rv_src_t(in[k + 1]) == typeof(args[k]) && rv_src_v(in[k + 1]) == ival(args[k]))
 //@   loop 2 invariant 0 <= i && len(in) == n && forall(k, 0, i, args[k] != nil ==> rv_valid(in[k]) && rv_src_t(in[k]) == typeof(args[k]) && rv_src_v(in[k]) == ival(args[k]))
+
+// ---- C08, client side: one call = one encode, one request, one decode, in that order ---------
+//@ ghost cenc int
+//@ ghost cenc_name int
+//@ ghost cenc_args []interface{}
+//@ ghost cenc_out []byte
+//@ ghost cenc_err error
+//@ ghost cdec int
+//@ ghost cdec_in []byte
+//@ ghost cdec_out []interface{}
+//@ ghost cdec_err error
+
+//@ iface ClientCodec.Encode(self, name, args, context) (request, err)
+//@   havoc
+//@   modifies ghost.cenc, ghost.cenc_name, ghost.cenc_args, ghost.cenc_out, ghost.cenc_err
+//@   ensures ghost.cenc == old(ghost.cenc) + 1 && ghost.cenc_name == str(name) && same(ghost.cenc_args, args) && same(request, ghost.cenc_out) && same(err, ghost.cenc_err)
+//@ iface ClientCodec.Decode(self, response, context) (result, err)
+//@   havoc
+//@   modifies ghost.cdec, ghost.cdec_in, ghost.cdec_out, ghost.cdec_err
+//@   ensures ghost.cdec == old(ghost.cdec) + 1 && same(ghost.cdec_in, response) && same(result, ghost.cdec_out) && same(err, ghost.cdec_err)
+
+//@ func (*Client).Request
+//@   prop C08 C15
+//@   havoc
+//@   flag typeassert=panic
+//@   requires c != nil && c.ioManager != nil
+//@   modifies @NEXT_IO
+//@   ensures [enters_the_io_chain_exactly_once] ghost.fwd == old(ghost.fwd) + 1 && same(response, ghost.ret_response) && same(err, ghost.ret_err)
+
+//@ func (*Client).Call
+//@   prop C08
+//@   havoc
+//@   requires c != nil && c.ioManager != nil && c.Codec != nil
+//@   modifies @NEXT_IO, ghost.cenc, ghost.cenc_name, ghost.cenc_args, ghost.cenc_out, ghost.cenc_err, ghost.cdec, ghost.cdec_in, ghost.cdec_out, ghost.cdec_err
+//@   ensures [encodes_this_call_once] ghost.cenc == old(ghost.cenc) + 1 && ghost.cenc_name == str(name) && same(ghost.cenc_args, args)
+//@   ensures [encode_error_is_returned_and_nothing_is_sent] ghost.cenc_err != nil ==> same(err, ghost.cenc_err) && result == nil && ghost.fwd == old(ghost.fwd) && ghost.cdec == old(ghost.cdec)
+//@   ensures [sends_one_request] ghost.cenc_err == nil ==> ghost.fwd == old(ghost.fwd) + 1
+//@   ensures [transport_error_is_returned_and_nothing_is_decoded] ghost.cenc_err == nil && ghost.ret_err != nil ==> same(err, ghost.ret_err) && result == nil && ghost.cdec == old(ghost.cdec)
+//@   ensures [decodes_exactly_the_response_received] ghost.cenc_err == nil && ghost.ret_err == nil ==> ghost.cdec == old(ghost.cdec) + 1 && same(ghost.cdec_in, ghost.ret_response)
+//@   ensures [returns_what_the_codec_decoded] ghost.cenc_err == nil && ghost.ret_err == nil ==> same(result, ghost.cdec_out) && same(err, ghost.cdec_err)
